@@ -357,150 +357,119 @@ def sliced_requests(variant, tip):
             5: [('tx', tip, 0), (0, tip), ('pos', tip, 1)]}[variant]
 
 
+def send_sliced_requests(s, variant, base):
+    c = s.x_clients['c1']
+    tip0 = len(base) - 1
+    for rq in sliced_requests(variant, tip0):
+        if rq[0] == 'pos':
+            rid = c.request('blockchain.transaction.id_from_pos',
+                            [rq[1], min(rq[2], len(base[rq[1]].txs) - 1), True])
+        elif rq[0] == 'tx':
+            pos = min(rq[2], len(base[rq[1]].txs) - 1)
+            rid = c.request('blockchain.transaction.get_merkle',
+                            [base[rq[1]].txs[pos].txid[::-1].hex(), rq[1]])
+        else:
+            rid = c.request('blockchain.block.header', list(rq))
+        s.x_reqs.append((rid,) + tuple(rq))
+
+
+def judge_sliced(s, base, y, depth, res):
+    c = s.x_clients['c1']
+    tip0 = len(base) - 1
+    failures = []
+    dead = s.check_tasks()
+    if dead:
+        return [('server-task-ended', dict(tasks=dead))]
+    if s.db.state.height != len(y) - 1:
+        return [('index-not-at-tip', dict(height=s.db.state.height))]
+    s.settle()
+    for rid, h, cp, *more in s.x_reqs:
+        r = c.reply(rid)
+        res.count('in_flight_replies_judged')
+        if r is None:
+            failures.append(('request-never-answered', dict(request=[h, cp] + more)))
+        elif 'error' in r:
+            res.count('in_flight_refused')
+        elif h in ('pos', 'tx'):
+            height, pos = cp, min(more[0], len(base[cp].txs) - 1)
+            kind = 'id_from_pos' if h == 'pos' else 'get_merkle'
+            want = base[height].txs[pos].txid
+            ok = False
+            for ch in (base, y):
+                if height < len(ch):
+                    ids = [t.txid for t in ch[height].txs]
+                    p2 = pos if h == 'pos' else (ids.index(want) if want in ids else None)
+                    ok = ok or (p2 is not None and p2 < len(ids) and
+                                check_tx_proof(r, ch[height], p2, kind) is None)
+            if not ok:
+                failures.append(('in-flight-proof-verifies-against-no-chain',
+                                 dict(request=[h, cp] + more)))
+        elif not any(cp < len(ch) and check_header_proof(r, ch, h, cp) is None
+                     for ch in (base, y)):
+            failures.append(('in-flight-proof-verifies-against-no-chain', dict(h=h, cp=cp)))
+    if not failures:
+        full_proof_check(s, c, y, res, failures=failures,
+                         heights=range(max(0, tip0 - depth - 1), len(y)))
+    if not failures:
+        # afterwards every header proof must verify against the chain the server is on
+        tip = len(y) - 1
+        for cp in range(1, tip + 1):        # cp_height 0 means "no proof" in the protocol
+            for h in range(cp + 1):
+                r = c.call('blockchain.block.header', [h, cp])
+                res.count('header_proofs_checked')
+                why = check_header_proof(r, y, h, cp)
+                if why:
+                    return [('header-proof-after-undo', dict(h=h, cp=cp, why=why))]
+    return failures
+
+
 def case_sliced(case, res):
-    '''The undo of a block runs in a worker thread while the event loop keeps serving clients.
-    The backup_block jobs are SLICED (vf/sliced.py: the job hands control back before each of its
-    storage / file operations) and header-proof requests are served to completion at slice point
-    k.  Returns False when k is beyond the last slice point.'''
-    from vf.sliced import SlicedRunner
+    '''The undo of a block, the indexing of the new branch and the flushes run in a worker thread
+    while the event loop keeps serving clients: proof requests are served at every slice point
+    of every mutating job of a reorganisation (vf/slicedsys.py); case['torn']: the requests'
+    own reads are torn by the mutation (split mode).'''
+    from vf import slicedsys
     base, y = sliced_chains(case['depth'])
     tip0 = len(base) - 1
-    s, c = boot(base, immediate=True)
-    runner = None
-    failures = []
-    try:
+
+    def make():
+        s, c = boot(base, immediate=True)
         for h, cp in case.get('warm', [(0, tip0)]):
             c.call('blockchain.block.header', [h, cp])
-        runner = SlicedRunner(s)
+        s.x_reqs = []
+        return s
+
+    def fork(s):
         s.daemon.add_known(y)
         s.daemon.set_chain(y)
         s.x_chains.append(y)
         s.x_blocks = y
-        reqs = []
-        points = 0
-        injected = False
-        ticks = 0
-        guard = 0
-        name = lambda sj: getattr(sj.job.func, '__name__', '')
-        while True:
-            guard += 1
-            if guard > 200000:
-                raise common.Broken('sliced execution does not end')
-            if s.loop.step_ready():
-                continue
-            active = runner.active()
-            if active:
-                sj = active[0]
-                if name(sj) == 'backup_block':
-                    if points == case['k'] and not injected:
-                        injected = True
-                        for rq in sliced_requests(case['variant'], tip0):
-                            if rq[0] == 'pos':
-                                rid = c.request('blockchain.transaction.id_from_pos',
-                                                [rq[1], min(rq[2], len(base[rq[1]].txs) - 1), True])
-                            elif rq[0] == 'tx':
-                                pos = min(rq[2], len(base[rq[1]].txs) - 1)
-                                rid = c.request('blockchain.transaction.get_merkle',
-                                                [base[rq[1]].txs[pos].txid[::-1].hex(), rq[1]])
-                            else:
-                                rid = c.request('blockchain.block.header', list(rq))
-                            reqs.append((rid,) + tuple(rq))
-                        # serve them to completion while the undo job stays where it is
-                        while True:
-                            if s.loop.step_ready():
-                                continue
-                            others = [x for x in runner.active() if x is not sj]
-                            if not others:
-                                break
-                            runner.step(others[0])
-                        res.count('slice_points_with_requests')
-                        res.distinct('slice_ops', (sj.last_op or ('start',))[0])
-                        continue
-                    points += 1
-                runner.step(sj)
-                continue
-            if s.db.state.height == len(y) - 1 and bytes(s.db.state.tip) == y[-1].hash:
-                break
-            ticks += 1
-            if ticks > 12 or not s.loop.fire_polling_timer():
-                break
-        runner.shutdown()
-        runner = None
-        if not injected:
-            return False
-        dead = s.check_tasks()
-        if dead:
-            failures.append(('server-task-ended', dict(tasks=dead)))
-        elif s.db.state.height != len(y) - 1:
-            failures.append(('index-not-at-tip', dict(height=s.db.state.height)))
-        else:
-            s.settle()
-            for rid, h, cp, *more in reqs:
-                r = c.reply(rid)
-                res.count('in_flight_replies_judged')
-                if r is None:
-                    failures.append(('request-never-answered', dict(request=[h, cp] + more)))
-                elif 'error' in r:
-                    res.count('in_flight_refused')
-                elif h in ('pos', 'tx'):
-                    height, pos = cp, min(more[0], len(base[cp].txs) - 1)
-                    kind = 'id_from_pos' if h == 'pos' else 'get_merkle'
-                    want = base[height].txs[pos].txid
-                    ok = False
-                    for ch in (base, y):
-                        if height < len(ch):
-                            ids = [t.txid for t in ch[height].txs]
-                            p2 = pos if h == 'pos' else (ids.index(want) if want in ids else None)
-                            ok = ok or (p2 is not None and p2 < len(ids) and
-                                        check_tx_proof(r, ch[height], p2, kind) is None)
-                    if not ok:
-                        failures.append(('in-flight-proof-verifies-against-no-chain',
-                                         dict(request=[h, cp] + more)))
-                elif not any(cp < len(ch) and check_header_proof(r, ch, h, cp) is None
-                             for ch in (base, y)):
-                    failures.append(('in-flight-proof-verifies-against-no-chain',
-                                     dict(h=h, cp=cp)))
-            if not failures:
-                full_proof_check(s, c, y, res, failures=failures,
-                                 heights=range(max(0, tip0 - case['depth'] - 1), len(y)))
-            # afterwards every header proof must verify against the chain the server is on
-            tip = len(y) - 1
-            for cp in range(1, tip + 1):        # cp_height 0 means "no proof" in the protocol
-                for h in range(cp + 1):
-                    r = c.call('blockchain.block.header', [h, cp])
-                    res.count('header_proofs_checked')
-                    why = check_header_proof(r, y, h, cp)
-                    if why:
-                        failures.append(('header-proof-after-undo', dict(h=h, cp=cp, why=why)))
-                        break
-                else:
-                    continue
-                break
-        res.count('sliced_executions')
-    finally:
-        if runner is not None:
-            runner.shutdown()
-        s.close()
-    for key, detail in failures[:1]:
-        res.violation(f'{key}:served-while-a-block-is-undone', dict(case),
-                      dict(detail, slice_point=case['k'], depth=case['depth'],
-                           requests=sliced_requests(case['variant'], tip0)))
-    return True
+
+    script_of = lambda s: [('fork', fork), 'tick', 'tick', 'tick']
+    inject = lambda s: send_sliced_requests(s, case['variant'], base)
+    judge = lambda run: judge_sliced(run.s, base, y, case['depth'], res)
+    if case.get('torn'):
+        found = slicedsys.enumerate_splits(make, script_of, inject, judge, res,
+                                           f'depth {case["depth"]}', only=case.get('kib'),
+                                           i_max=3, b_set=case.get('b_set', (1, 2, 4, 8)))
+        for kib, key, detail in found:
+            res.violation(f'{key}:read-torn-by-a-reorganisation', dict(case, kib=list(kib)),
+                          dict(detail, depth=case['depth'],
+                               requests=sliced_requests(case['variant'], tip0)))
+    else:
+        found = slicedsys.enumerate_points(make, script_of, inject, judge, res,
+                                           f'depth {case["depth"]}', only_k=case.get('k'))
+        for k, key, detail in found:
+            res.violation(f'{key}:served-while-a-block-is-undone', dict(case, k=k),
+                          dict(detail, depth=case['depth'],
+                               requests=sliced_requests(case['variant'], tip0)))
 
 
 def run_case(case, res):
     if 'history' in case:
         case_history(case, res)
     elif 'sliced' in case:
-        if 'k' in case:
-            case_sliced(case, res)
-        else:
-            for k in range(0, 400):
-                if not case_sliced(dict(case, k=k), res):
-                    res.maxi('slice_points', k)
-                    break
-            else:
-                raise common.Broken('more than 400 slice points in the undo jobs')
+        case_sliced(case, res)
     else:
         case_schedule(case, res)
 
@@ -515,6 +484,10 @@ def cases_for(tier):
     for depth in (1, 2) if q else (1, 2, 3):
         for variant in range(6):
             cases.append(dict(sliced=True, depth=depth, variant=variant))
+    # reads of the requests themselves torn by the mutation
+    for depth in (1,) if q else (1, 2):
+        for variant in (2, 4) if q else range(6):
+            cases.append(dict(sliced=True, torn=True, depth=depth, variant=variant))
     return cases
 
 
@@ -542,6 +515,7 @@ def run(tier, seed, started):
         'in_flight_refused': c.get('in_flight_refused', 0),
         'schedule_executions': c['executions'],
         'sliced_undo_executions': c.get('sliced_executions', 0),
+        'torn_read_executions': c.get('torn_read_executions', 0),
         'slice_points_per_reorg': c.get('max:slice_points'),
         'deviation_bound_completed': 1 if tier == 'quick' else 2,
         'deviation_kinds_used': sorted(kinds),
